@@ -61,6 +61,16 @@ Proof.
 Qed.
 Print Assumptions C16_edges_user.
 
+(* A transition declared inside a nested state's definition (scope p, names relative to p) is drawn between the
+   absolute names p ++ source and p ++ destination (p ++ source twice when it is internal), with its label. *)
+Theorem C16_edges_scoped : forall m st p t, In (p, t) (m_scoped m) -> wf_trans t = true ->
+  let s := p ++ t_src t in
+  let d := p ++ dst_of t in
+  In (Edge s d (labels_for (m_opts m) (elements m) s d)) (render_full m st)
+  /\ In (tlabel (m_opts m) t) (labels_for (m_opts m) (elements m) s d).
+Proof. exact scoped_edges. Qed.
+Print Assumptions C16_edges_scoped.
+
 (* Conversely every edge line carries exactly the labels of the transitions between its two
    states (no invented edge, no invented label). *)
 Theorem C16_edges_only : forall m st s d ls, wf_kind (m_opts m) (m_states m) = true ->
@@ -116,7 +126,7 @@ Definition rf_m : machine :=
   mkM [ Node 0 [65] None false [] [[108]] false NoInit []; Node 1 [66] None false [] [] false NoInit [];
         Node 3 [68] None false [] [] false NoInit [] ]
       [ mkT [103] None [0] (Some [1]) [] []; mkT [120] None [0] (Some [3]) [] [] ]
-      [0] (mkO false false false false false true) [([108], [120])] 1 [].
+      [0] (mkO false false false false false true) [([108], [120])] 1 [] [].
 Theorem C16_styles_exit_refuted :
   exists m ops, wf_kind (m_opts m) (m_states m) = true /\ wf_forest (m_states m) = true /\
     exit_inert m = false /\
@@ -135,7 +145,7 @@ Print Assumptions C16_styles_exit_refuted.
 Definition rg_m : machine :=
   mkM [ Node 0 [65] None false [] [[114]] false NoInit []; Node 1 [66] None false [] [] false NoInit [] ]
       [ mkT [103] None [0] (Some [1]) [] [] ]
-      [0] (mkO false false false false false true) [] 0 [[114]].
+      [0] (mkO false false false false false true) [] 0 [[114]] [].
 Theorem C16_styles_regen_refuted :
   exists m ops, wf_kind (m_opts m) (m_states m) = true /\ wf_forest (m_states m) = true /\
     exit_inert m = false /\
@@ -216,7 +226,8 @@ Definition ex_trans : list trans :=
   [ mkT [103; 111] None [0] (Some [1]) [([99; 48], true)] [([99; 49], false)];
     mkT [105] None [1; 10] None [] [];
     mkT [110] (Some [78]) [1; 10] (Some [1; 11]) [] [] ].
-Definition ex_m : machine := mkM ex_forest ex_trans [0] (mkO true false true true false true) [] 0 [].
+Definition ex_m : machine := mkM ex_forest ex_trans [0] (mkO true false true true false true) [] 0 []
+       [([1], mkT [108] None [10] (Some [11]) [] []); ([2], mkT [109] None [21] None [] [])].
 Definition ex_ops : list op :=
   [ Ev [103; 111]; Ev [105]; Ev [110]; AddState (ex_leaf 3 [67] false);
     AddTrans (mkT [122] None [3] (Some [0]) [] []); RemTrans [105] None None ].
@@ -238,7 +249,7 @@ Definition nx_m : machine :=
   mkM [ Node 0 [65] None false [] [] false NoInit []; Node 1 [66] None false [[102]] [] false NoInit [];
         Node 2 [67] None false [] [] false NoInit [] ]
       [ mkT [103] None [0] (Some [1]) [] []; mkT [111] None [1] (Some [2]) [] [] ]
-      [0] (mkO false false false false false true) [([102], [111])] 2 [].
+      [0] (mkO false false false false false true) [([102], [111])] 2 [] [].
 Example C16_example_nested :
   exit_inert nx_m = true /\ forallb (op_inert (cbcfg nx_m)) [Ev [103]] = true
   /\ d_cur (run nx_m [Ev [103]]) = [[2]] /\ d_last (run nx_m [Ev [103]]) = Some [1]
